@@ -93,6 +93,22 @@ def comp2():
     return c
 
 
+def comp3():
+    c = comp2()
+    c.add_track(track2())
+    return c
+
+
+class _Omit(object):
+    """alternative value of a parameter: the argument is not passed at all (the callable's own default applies)"""
+
+    def __repr__(self):
+        return "<argument omitted>"
+
+
+OMIT = _Omit()
+
+
 def tuning6():
     return _tunings.StringTuning("Guitar", "test", ["E-2", "A-2", "D-3", "G-3", "B-3", "E-4"])
 
@@ -160,7 +176,7 @@ GLOBAL = {
     "channels": lambda: [[1, 2], [1, 2, 9]],
     "track": lambda: [track2(), track_rest(), track_mixed()],
     "tracks": lambda: [[track2(), track2()], [track2(), track1(), track2()]],
-    "composition": lambda: [comp2()],
+    "composition": lambda: [comp2(), comp3()],
     "nc": lambda: [NoteContainer(["C", "E"])],
     "notecontainer": lambda: [NoteContainer(["C", "E"])],
     "interval": lambda: ["3"],
@@ -344,7 +360,7 @@ CALL = {
     ("Sequencer", "notify_listeners", "msg_type"): lambda: [5],
     ("Sequencer", "stop_Note", "note"): lambda: [Note("C", 4)],
     ("Sequencer", "control_change", "value"): lambda: [100],
-    ("Sequencer", "play_Composition", "channels"): lambda: [[1, 2], None],
+    ("Sequencer", "play_Composition", "channels"): lambda: [[1, 2, 3], None, OMIT],
     ("StringTuning", "find_chord_fingering", "notes"): lambda: [["C", "E", "G"], NoteContainer(["C", "E", "G"])],
 }
 
